@@ -3,6 +3,7 @@
 //! note: the per-message acceptance tests of the network graph and its staleness pruning: a channel_update / node_announcement replaces stored information only with a strictly newer timestamp, an update above the channel's capacity (or above 21e6 BTC, or for another chain) is refused, and pruning drops exactly the directions older than two weeks and the channels left without a current direction
 //! trusted: R15 (deep slices): NetworkGraph::update_channel_internal, update_node_from_announcement_intern and remove_stale_channels_and_tracking_with_time work on IndexedMaps behind RwLocks with signature checks through secp256k1; the unit extracts, on every run and verbatim, (a) the body of the closure check_update_latest, (b) the body of the closure check_msg_sanity (its two calls of check_update_latest get the message as an explicit argument), (c) the chain-hash test and the MAX_VALUE_MSAT test at the top of update_channel_internal, (d) the timestamp test of the node announcement, (e) the per-channel body of the pruning loop (`scids_to_remove.insert(*scid)` becomes setting a flag); (f) pre_channel_announcement_validation_check with the map lookup replaced by its result as a parameter (R5); (g) verify_channel_announcement / verify_node_announcement whole, with the function-local macros expanded by rule (R8): `secp_verify_sig!(ctx, m, s, k, _)` -> `match ctx.verify_ecdsa(m, s, k) { Ok(_) => {}, Err(_) => return Err(..) }` and `get_pubkey_from_node_id!(n, _)` -> the external_body pubkey_from_node_id(n) with `?`-style early return, `hash_to_message!(message_sha256d_hash(..))` -> an uninterpreted hash of the contents; verify_ecdsa is external_body over the uninterpreted sig_valid; (h) the choice of the signing node of a channel_update (`.as_slice()` dropped, R5); (i) the replace-or-refuse test of add_channel_between_nodes; (j) the recently-removed test of update_channel_from_unsigned_announcement_intern (the two tracking maps are stubs with a ghost key set); map lookups, storing the new information, removing channels from the node table and the order-independence of the whole graph are dropped and not claimed
 //! trusted: env: ChannelInfo {one_to_two, two_to_one, capacity_sats, announcement_received_time}, ChannelUpdateInfo {last_update}, UnsignedChannelUpdate {chain_hash, timestamp, channel_flags, htlc_maximum_msat}, NodeAnnouncementInfo {last_update} are field skeletons; ChainHash is an opaque identity; LightningError loses its text and action (R8)
+//! trusted: R15 (deep slices, k): node_failed_permanent: the expression choosing the other end of each of the failed node's channels and the predicate of the `retain` on that neighbour's channel list, verbatim as functions (ChannelEnds is a two-field skeleton of ChannelInfo); removing the node, its channels and emptied neighbours from the maps and recording the removals are dropped and not claimed
 use vstd::prelude::*;
 verus! {
 use vstd::std_specs::cmp::*;
@@ -324,6 +325,31 @@ impl<K> TrackedSet<K> { #[verifier::external_body] pub fn contains_key(&self, k:
     || removed_nodes.contains_key(&msg.node_id_2)
 //@with
     || removed_nodes.contains_key(&msg.node_id_1)
+//@end
+
+// (k) a node reported permanently failed takes its channels with it; each neighbour loses exactly that channel
+pub struct ChannelEnds { pub node_one: NodeId, pub node_two: NodeId }
+//@extract lightning/src/routing/gossip.rs :: impl NetworkGraph :: fn node_failed_permanent
+//@slice R15
+    let other_node_id = $e:seq; if let IndexedMapEntry::Occupied(mut other_node_entry) =
+//@with
+    fn other_end_of_a_failed_nodes_channel(node_id: NodeId, chan_info: &ChannelEnds) -> NodeId { $e }
+//@ret r
+//@ensures P C17 the-neighbour-updated-when-a-failed-nodes-channel-is-removed-is-the-channels-other-end
+    (node_id == chan_info.node_one ==> r == chan_info.node_two) && (node_id == chan_info.node_two && node_id != chan_info.node_one ==> r == chan_info.node_one),
+//@mutant neighbour_is_the_failed_node_itself
+    if node_id == chan_info.node_one { chan_info.node_two } else { chan_info.node_one }
+//@with
+    if node_id == chan_info.node_one { chan_info.node_one } else { chan_info.node_two }
+//@end
+//@extract lightning/src/routing/gossip.rs :: impl NetworkGraph :: fn node_failed_permanent
+//@slice R15
+    other_node_entry.get_mut().channels.retain(|chan_id| $p:cond);
+//@with
+    fn neighbour_keeps_channel(scid: &u64, chan_id: &u64) -> bool { $p }
+//@ret r
+//@ensures P C17 the-neighbour-of-a-failed-node-loses-exactly-the-channel-it-shared-with-it
+    r == (*scid != *chan_id),
 //@end
 }
 fn main() {}
